@@ -30,6 +30,9 @@ EventClauses(hb, rb, pairs, prevres, ev) ==
         LET src == rb[ev.root]  dst == ev.newroot IN
         << <<"C08:ReadOnlyOperationLeavesEveryReachableObjectStructurallyUnchanged", \A i \in 1..Len(rb) : unchanged(i)>>,
            <<"C08:TagifyResultSharesNoTagListAttrsOrMetadataWithOriginal", Shared(ha, src, dst) = {}>>,
+           \* ... nor with anything else that exists already (an earlier result, a copy): otherwise mutating that
+           \* object would change what this result - a copy of the original - shows
+           <<"C08:TagifyResultSharesNothingWithEarlierResults", \A j \in 1..Len(rb) : Shared(ha, rb[j], dst) = {}>>,
            <<"C09:TagifyChildrenAreTheExpansionSplicedInPlace", Struct(ha, IdRef(dst)) = Expand(sb[ev.root])>>,
            <<"C08:TagifyEqualsOriginalWhenNothingToExpand",
                 \* the library's == is also required, except that bare MetadataNode objects (a base class
@@ -50,7 +53,9 @@ EventClauses(hb, rb, pairs, prevres, ev) ==
            <<"C20:ConvertingAgainGivesTheSameResult", prevres # "" => ev.res = prevres>>,
            \* a component's tagify() is a tagify(): the returned tree shares no tag, list, attribute map or metadata node
            <<"C08:TagifyResultSharesNoTagListAttrsOrMetadataWithOriginal",
-                ev.newroot # 0 => Shared(ha, rb[1], ev.newroot) = {}>> >>
+                ev.newroot # 0 => Shared(ha, rb[1], ev.newroot) = {}>>,
+           <<"C08:TagifyResultSharesNothingWithEarlierResults",
+                (ev.newroot # 0 /\ ev.prevnew # 0) => Shared(ha, ev.prevnew, ev.newroot) = {}>> >>
     [] OTHER ->
         << <<"C08:ReadOnlyOperationLeavesEveryReachableObjectStructurallyUnchanged",
                ev.ro => \A i \in 1..Len(rb) : unchanged(i)>>,
@@ -100,6 +105,8 @@ Clauses(e) ==
                     <<"C09:HTMLDocumentRenderExpandsTheSameWay", built => ev.eqdoc>>,
                     <<"C08:ReadOnlyOperationLeavesEveryReachableObjectStructurallyUnchanged",
                          Struct(ev.heap, IdRef(ev.roots[1])) = Struct(e.heap0, IdRef(e.roots0[1]))>> >>)
+  \* a boolean observation whose expected value is TRUE, named by the driver (directed scenarios)
+  ELSE IF e.k = "obs" THEN FailList(<< <<e.p \o ":" \o e.name, e.holds>> >>)
   ELSE Walk(e, 1, <<>>, <<>>)
 
 Judge(e) == [fail |-> Clauses(e)]
